@@ -23,6 +23,7 @@ structure Dq where
 deriving DecidableEq
 
 inductive Op | async (id : ItemId) (bar : Bool) | sync (id : ItemId) (bar : Bool) | worker
+  | apply (k : Nat)      -- dispatch_apply from inside a running item: reserve up to k more width units
 
 inductive K | done | toWait (id : ItemId) (bar : Bool) | workerIdle
 deriving DecidableEq
@@ -51,6 +52,7 @@ inductive Pc
   | sTryR2 (id : ItemId)
   | run (id : ItemId) (after : After)        -- about to start the item
   | running (id : ItemId) (after : After)    -- inside the item
+  | runningA (id : ItemId) (after : After) (k : Nat)   -- inside the item, holding k extra units reserved for dispatch_apply
   | sFastUnlock
   | sSlowPush (id : ItemId) (bar : Bool)
   | sSlowLink (id : ItemId) (bar : Bool) (wasEmpty : Bool)
@@ -141,6 +143,18 @@ def upgradeDq (W : Nat) (d : Dq) (n : Nat) : Dq :=
   let new := if new.runnable W then { new with u := new.u + 1, B := true, pb := false } else new
   { new with D := false }
 
+/-- `_dispatch_queue_try_reserve_apply_width` (apply.c): take `min k (available width)` units, nothing when the
+    FULL bit is set (in barrier, or all width in use); `_dispatch_queue_relinquish_width` gives them back -/
+def applyReserve (W : Nat) (sh : Sh) (t : Tid) (id : ItemId) (after : After) (op : Op) : List (Sh × Pc) :=
+  match op with
+  | .apply k =>
+    if W == 1 then [] else
+    let avail := if sh.dq.u ≥ W then 0 else ((W : Int) - sh.dq.u).toNat
+    let k' := min k avail
+    if k' = 0 then []
+    else [({ sh with dq := { sh.dq with u := sh.dq.u + k' }, holders := List.replicate k' t ++ sh.holders }, .runningA id after k')]
+  | _ => []
+
 /-- hand one unit of thread t to a popped item: to the waiter w, or to a redirect token -/
 def handOver (sh : Sh) (t : Tid) (h : Item) : Sh :=
   match h.waiter with
@@ -155,6 +169,7 @@ def step (W : Nat) (sh : Sh) (t : Tid) (pc : Pc) (op : Op) : List (Sh × Pc) :=
     | .async id bar => [(sh, .aStart id bar)]
     | .sync id bar => [(sh, if W == 1 || bar then .sTryB id else .sTryR id)]
     | .worker => [(sh, .wIdle)]
+    | .apply _ => []
   | .aStart id bar =>
     if W > 1 && sh.items.isEmpty && !bar then [(sh, .aTryAsync id)] else [(sh, .aPush id bar)]
   | .aTryAsync id =>
@@ -182,7 +197,10 @@ def step (W : Nat) (sh : Sh) (t : Tid) (pc : Pc) (op : Op) : List (Sh × Pc) :=
       [({ sh with dq := { d with u := d.u + 1 }, holders := t :: sh.holders }, .run id .nbcClient)]
     else [(sh, .sSlowPush id false)]
   | .run id after => [(sh, .running id after)]
-  | .running _ after =>
+  | .runningA id after k =>
+    [({ sh with dq := { d with u := d.u - k }, holders := rmN k t sh.holders }, .running id after)]
+  | .running id after =>
+    applyReserve W sh t id after op ++
     match after with
     | .fastB => if W > 1 then [(sh, .bc1 false .done)] else [(sh, .sFastUnlock)]
     | .bc => [(sh, .bc1 false .done)]
